@@ -275,6 +275,10 @@ func runC20(r *vhlib.Run) {
 	c20Impl(r)
 	// prefix.Writer against its implementation-level model over scripted (also failing) sinks
 	runWBITW(r)
+	// offsets coded as (range symbol, extra bits): RangeEncoder, WriteOffset / ReadOffset
+	c20Ranges(r)
+	// Decoder.Init / Encoder.Init tables and ReadSymbol against their implementation-level model
+	wdectab(r)
 	// exhaustive: alphabets up to 5 (thorough: 6) symbols with counts 0..4, every limit
 	maxN := 5
 	if !r.Quick() {
